@@ -33,3 +33,9 @@ Print Assumptions C08_unfold_zero_dim_size0_refuted.
 Theorem C08_unbind : forall (A : Type) r dim (xs : list A), 0 <= r -> aten_unbind r dim xs = torch_unbind r dim xs.
 Proof. exact @unbind_correct. Qed.
 Print Assumptions C08_unbind.
+
+(* the repaired code (proposed_fixes/ready/C08_16_unfold_zero_dim_size_zero.diff): no side condition on a 0-d tensor's size *)
+Theorem C08_unfold_shape_fixed : forall s dimension size step out,
+  shape_ok s -> torch_unfold_shape s dimension size step = Some out -> aten_unfold_shape_v true s dimension size step = Some out.
+Proof. exact unfold_shape_v_fixed. Qed.
+Print Assumptions C08_unfold_shape_fixed.
